@@ -384,6 +384,15 @@ structure Obs where
   initSubclass : List CellVal
   ownSetattrFlag : Option Bool
   setattrReset : Bool
+  /-- what every reachable function that uses the class saw when it was invoked FROM INSIDE the inherited
+      `__attrs_init_subclass__` hook (empty when no hook call happened) -/
+  hookCalls : List (Label × CellVal)
+  /-- checks on the class the hook received that failed at the time of the call (final `__slots__`, final
+      class dict, `fields(cls)`): observed -/
+  hookView : List String
+  /-- assigning every field on an instance of the slotted build and of the dict build of the same class runs
+      the same hooks with the same outcome -/
+  assignAgree : Bool
   /-- runtime identity facts that do NOT hold (type, name, qualname, module, doc, bases): observed only -/
   runtimeDiff : List String
   deriving DecidableEq, Repr, FromJson, ToJson, Inhabited
@@ -405,6 +414,20 @@ def instWeakrefable (c : Case) : Bool := (slotNames c).contains "__weakref__" ||
 def initSubclassCalls (c : Case) : List CellVal :=
   if c.mro.any (·.initSubclass) && !Dict.has (newDict c) "__attrs_init_subclass__" then [.new] else []
 
+/-- what `_patch_original_class` decides for the same class: reset iff the builder wrote no `__setattr__`,
+    the user has none, and the flag *resolved on the class* (along the MRO) is true -/
+def dictReset (c : Case) : Bool :=
+  c.setattrMode == .none && !c.customSetattr && ((c.mro.findSome? (·.ownSetattr)).getD false)
+
+/-- the slotted build left `object.__setattr__` under `__setattr__` -/
+def slotsResetOf (c : Case) : Bool := Dict.get (newDict c) "__setattr__" == some .objSetattr
+
+/-- Order of steps in `_create_slots_class` / `build_class`: the class is created, THEN the closure cells are
+    rewritten, THEN (back in `build_class`) the inherited `__attrs_init_subclass__` runs — so whatever the hook
+    invokes on the class sees the rewritten cells. -/
+def hookCalls (c : Case) : List (Label × CellVal) :=
+  if (initSubclassCalls c).isEmpty then [] else calls c
+
 def model (c : Case) : Obs :=
   let run := runAccesses c.accesses { stored := [], log := [] }
   { keys := c.body.map (fun kv => (kv.1, keyStatus c kv.1 kv.2)),
@@ -423,7 +446,11 @@ def model (c : Case) : Obs :=
     initSubclass := initSubclassCalls c,
     ownSetattrFlag := (match Dict.get (newDict c) "__attrs_own_setattr__" with
                        | some (.flag b) => some b | _ => none),
-    setattrReset := Dict.get (newDict c) "__setattr__" == some .objSetattr,
+    setattrReset := slotsResetOf c,
+    hookCalls := hookCalls c,
+    hookView := [],
+    -- both builds resolve the same `__setattr__` for every field iff they decide the reset alike
+    assignAgree := slotsResetOf c == dictReset c,
     runtimeDiff := [] }
 
 /-! ## `__attrs_init_subclass__` along a chain of builds (dict and slotted) -/
@@ -447,6 +474,9 @@ structure ISubCall where
   definer : Nat
   received : Nat
   final : Bool
+  /-- probes made by the hook at the time of the call all succeeded: methods of the received class using
+      `__class__` / `super()` see that class, its dict / `__slots__` / `fields()` are final -/
+  probe : Bool
   deriving DecidableEq, Repr, FromJson, ToJson, Inhabited
 
 structure ISubObs where
@@ -458,7 +488,7 @@ structure ISubObs where
 def isubHead (l : Level) (k : Nat) (d : Option Nat) : List ISubCall :=
   if l.attrs && !l.defines then
     match d with
-    | some j => [{ definer := j, received := k, final := true }]
+    | some j => [{ definer := j, received := k, final := true, probe := true }]
     | none => []
   else []
 
